@@ -98,7 +98,7 @@ pcgstrf_pivotL(
     pivmax = 0.0;
     pivptr = nsupc;
     diag = EMPTY;
-    old_pivptr = nsupc;
+    old_pivptr = EMPTY;
     for (isub = nsupc; isub < nsupr; ++isub) {
         rtemp = c_abs1 (&lu_col_ptr[isub]);
 	if ( rtemp > pivmax ) {
@@ -127,7 +127,9 @@ pcgstrf_pivotL(
     
     /* Choose appropriate pivotal element by our policy. */
     if ( *usepr == YES ) {
-        rtemp = c_abs1 (&lu_col_ptr[old_pivptr]);
+	/* The old pivot row may be absent from this column's structure
+	   (e.g. a perm_r left by a singular factorization): it is then zero. */
+        rtemp = ( old_pivptr == EMPTY ) ? 0.0 : c_abs1 (&lu_col_ptr[old_pivptr]);
 	if ( rtemp != 0.0 && rtemp >= thresh )
 	    pivptr = old_pivptr;
 	else
